@@ -177,6 +177,11 @@ func smallSpecs(seed int64, perRegime, blocks int, sharedWindows bool) (out []Tr
 	// list must stay as it is on apply and on revert (linear and across a fork)
 	out = append(out, TreeSpec{Seed: seed*1000 + 860, Allow: 100, Require: 110, Final: 120, OpsPerBlk: 0,
 		Shape: []int{1, 2, 3, 2, 5, 6}, Scripts: map[int][]string{2: {"fc1w", "fc1w", "fc1w"}, 3: {"rev1f"}, 6: {"rev1f"}}})
+	// a contract formed AND proven in one block (the element never outlives the block), on a main
+	// chain that a heavier fork reverts, next to a contract that lives on; the fork then passes the
+	// contract's window end
+	out = append(out, TreeSpec{Seed: seed*1000 + 870, Allow: 100, Require: 110, Final: 120, OpsPerBlk: 0,
+		Shape: []int{1, 2, 3, 2, 5, 6}, Scripts: map[int][]string{2: {"fc1w"}, 3: {"fcsp1"}, 4: {"sc1"}}})
 	// the same, with the fork reaching the shared expiration height: the contracts then EXPIRE in the
 	// history-dependent order (their missed-proof outputs get other leaf indices: the tip STATE
 	// differs from a linear node's unless WithExpiringContractOrder pins the order)
